@@ -628,7 +628,7 @@ pub fn run_check(prop: &dyn Prop, tier: Tier) -> i32 {
         coverage.insert("inconclusive".into(), json!(inconclusive));
     }
     if let Some(v) = &merged.violation {
-        coverage.insert("violation".into(), json!({"signature": v.sig, "message": v.msg, "replay": replay_path}));
+        coverage.insert("violation".into(), json!({"signature": v.sig, "message": shorten_msg(&v.msg), "replay": replay_path}));
     }
     let ev = json!({
         "property_id": prop.id(),
@@ -655,7 +655,7 @@ pub fn run_check(prop: &dyn Prop, tier: Tier) -> i32 {
     );
     if let Some(v) = &merged.violation {
         println!("  signature: {}", v.sig);
-        println!("  message:   {}", v.msg);
+        println!("  message:   {}", shorten_msg(&v.msg));
         println!("VIOLATION property={} replay={}", prop.id(), replay_path);
         return 1;
     }
@@ -721,7 +721,7 @@ pub fn run_replay(prop: &dyn Prop, path: &str) -> i32 {
         if let Some(k) = known.is_known(prop.id(), &f.sig) {
             println!("KNOWN-FINDING: property={} {} [{}]", prop.id(), k.what, f.sig);
         } else {
-            println!("  signature: {}\n  message:   {}", f.sig, f.msg);
+            println!("  signature: {}\n  message:   {}", f.sig, shorten_msg(&f.msg));
             bad = true;
         }
     }
@@ -776,4 +776,41 @@ pub fn pick_idx(i: u16, len: usize) -> usize {
 
 pub fn boxed<S: Strategy + 'static>(s: S) -> BoxedStrategy<S::Value> {
     s.boxed()
+}
+
+/// Seed corpus for a JSON fuzz target: `n` cases drawn from the property's own strategy (fixed seed),
+/// each at most `max_len` bytes of JSON.
+pub fn write_json_corpus<T: serde::Serialize + std::fmt::Debug>(st: proptest::strategy::BoxedStrategy<T>, dir: &str, n: usize, max_len: usize) {
+    use proptest::strategy::{Strategy, ValueTree};
+    use proptest::test_runner::{Config, RngAlgorithm, TestRng, TestRunner};
+    std::fs::create_dir_all(dir).unwrap();
+    let mut runner = TestRunner::new_with_rng(Config::default(), TestRng::from_seed(RngAlgorithm::ChaCha, &{
+        // FBV_CORPUS_SEED: fresh draws per campaign job
+        let k: u64 = std::env::var("FBV_CORPUS_SEED").ok().and_then(|s| s.parse().ok()).unwrap_or(9);
+        let mut b = [9u8; 32];
+        b[..8].copy_from_slice(&k.to_le_bytes());
+        b
+    }));
+    let mut i = 0;
+    let mut tries = 0;
+    while i < n && tries < n * 50 {
+        tries += 1;
+        let c = st.new_tree(&mut runner).unwrap().current();
+        let b = serde_json::to_vec(&c).unwrap();
+        if b.len() > max_len {
+            continue;
+        }
+        std::fs::write(format!("{}/seed-{:04}.json", dir, i), b).unwrap();
+        i += 1;
+    }
+}
+
+/// console / evidence form of a failure message (the replay file keeps the full text)
+pub fn shorten_msg(m: &str) -> String {
+    if m.len() <= 700 {
+        m.to_string()
+    } else {
+        let cut = (0..=700).rev().find(|i| m.is_char_boundary(*i)).unwrap_or(0);
+        format!("{} ... [{} more bytes]", &m[..cut], m.len() - cut)
+    }
 }
